@@ -128,6 +128,14 @@ def run(tier, seed, replay=None):
         D.rank_chop = spy
         for i in range(n):
             cores, eps, rmax, dtype, is_ttm, fam = gen_case(rng, i)
+            if i in (4, 8, 12):
+                # engineered: operators with many more rows than columns (x.to_ttm() is the extreme case) or the transpose, whose bond ranks exceed the
+                # number of columns (rows): the default rmax must not bind
+                g_ = np.random.default_rng(500 + i)
+                Mt, Nt = {4: ([4, 3, 4], [1, 1, 1]), 8: ([5, 2, 5], [2, 1, 1]), 12: ([1, 1, 1], [4, 3, 4])}[i]
+                Rt = [1, 3, 3, 1]
+                cores = [g_.standard_normal((Rt[k], Mt[k], Nt[k], Rt[k + 1])) for k in range(3)]
+                eps, rmax, dtype, is_ttm, fam = 1e-10, None, torch.float64, True, "tall-operator"
             dist[fam + ("-ttm" if is_ttm else "")] = dist.get(fam + ("-ttm" if is_ttm else ""), 0) + 1
             tc = [torch.tensor(c, dtype=dtype) for c in cores]
             before = [c.clone() for c in tc]
